@@ -98,6 +98,9 @@ def classes():
         _meth("pointed", args=[("VfWidget*", "w")]),
         _meth("ranked", args=[("uint", "u"), ("double", "d")]),
         _meth("moded", args=[("VfWidget::Mode", "m")]),
+        # value-class (gadget) arguments: a handler parameter is a copy the handler may modify
+        _meth("fonted", args=[("QFont", "f")]),
+        _meth("fonted2", args=[("int", "n"), ("QFont", "f")]),
         # true overloads: must be rejected as callback target
         _meth("over", args=[("int", "a")]),
         _meth("over", args=[("QString", "a")]),
